@@ -908,16 +908,19 @@ PROPS = {
         explanation="C07: rrset_gates + rrset_err_* theorems; stream `rrset` covers all gate combinations and OPT placements.",
     ),
     "C18": dict(
-        level="proof", module="Rsdns.Props.C18",
-        technique="Lean 4 theorems (equality = equality of case-folded text, order = lexicographic order of it, hash feed = it) + differential correspondence with a recording hasher",
+        level="proof", module="Rsdns.Props.C18", modules=["Rsdns.Props.C18", "Rsdns.Props.C18Str"],
+        technique="Lean 4 theorems (equality = equality of case-folded text, order = lexicographic order of it, hash feed = it, name == &str ⇔ the string parses to an equal name) + differential correspondence with a recording hasher",
         level_text="For all byte strings as name texts: eq ↔ folded texts equal; eq is an equivalence; cmp is the lexicographic order of "
                    "the folded text (hence eq ↔ cmp = Equal, antisymmetric, transitive, total); equal names feed the hasher identical "
                    "bytes; conversions preserve the text. Correspondence: Name and InlineName, ==, cmp, partial_cmp, Hash through a "
                    "recording hasher, From both ways, == &str.",
-        level_note="PARTIAL: `eqstr_parse` (name == &str agrees with parsing the string first) is decided on the implementation by the "
-                   "`cmp` stream, not yet a theorem. Trusted: Lean kernel; model of the Eq/Ord/Hash impls (validated by `cmp` stream).",
+        level_note="Props/C18Str.lean, eqstr_parse: for every name value n (canonical text, as both parsers and decoders produce it — "
+                   "parsed_is_canonical) and ANY string s: n == s  ⇔  s parses (either type) to a name equal to n; proved via: label "
+                   "and name validity are invariant under ASCII case (checkLabel_congr, check_congr), parsers = validator + canonical "
+                   "spelling (C05.parse_agree), and a case analysis of the root / trailing-dot special cases of PartialEq<&str> "
+                   "(Lemmas/EqStr.lean). Trusted: Lean kernel; model of the Eq/Ord/Hash impls (validated by `cmp` stream).",
         streams=[dict(name="cmp")],
-        explanation="C18: eq_iff_fold, eq_iff_cmp, cmp_is_lex, cmp_swap, cmp_trans, hash_congr, conv_text.",
+        explanation="C18: eq_iff_fold, eq_iff_cmp, cmp_is_lex, cmp_swap, cmp_trans, hash_congr, conv_text; C18Str: eqstr_parse, parsed_is_canonical.",
     ),
     "C11": dict(
         level="proof", module="Rsdns.Props.C11",
